@@ -157,6 +157,11 @@ def kaifa_cases():
         c[f"kaifa body {n} values"] = body_case("han.kaifa", lambda V, n=n: kaifa_value_body(n, V))
         c[f"kaifa frame {n} values (tagged APDU clock)"] = frame_case("han.kaifa", lambda V, n=n: kaifa_value_body(n, V), "tagged", "unless_in_list")
     c["kaifa frame 9 values (untagged APDU clock)"] = frame_case("han.kaifa", lambda V: kaifa_value_body(9, V), "untagged", "unless_in_list")
+    # identification strings of exactly 12 octets: the same length octet as a date-time, which the octet-string grammar tries first
+    c["kaifa body 13 values, 12-character texts"] = body_case("han.kaifa", lambda V: kaifa_value_body(13, V, text_len=12))
+    c["kaifa frame 18 values, 12-character texts (tagged APDU clock)"] = frame_case("han.kaifa", lambda V: kaifa_value_body(18, V, text_len=12), "tagged", "unless_in_list")
+    se12 = [("str", o, 12) for _, o, _ in KAIFA_SE[:3]] + KAIFA_SE[3:]
+    c["kaifa body swedish obis list, 12-character texts"] = body_case("han.kaifa", lambda V: kaifa_obis_body(se12, V))
     c["kaifa body swedish obis list"] = body_case("han.kaifa", lambda V: kaifa_obis_body(KAIFA_SE, V))
     c["kaifa frame swedish obis list (no APDU clock)"] = frame_case("han.kaifa", lambda V: kaifa_obis_body(KAIFA_SE, V), "null", None)
     return c
